@@ -15,6 +15,10 @@ package c08
 //               transaction hash (stored, reverted, unknown) x every (contract, slot) / contract / class of the
 //               universe, through jsonrpc.Server.HandleReader with the real method tables of rpc.Handler,
 //               for v0.8, v0.9, v0.10 and both state backends.
+//   uncommitted every history of N real operations with ONE uncommitted state transition (Store refused for a new_root
+//               mismatch, Store whose commit fails, Simulate, Finalise with a failing signer) of every alphabet block at
+//               every position, on one long-lived node with the read sweep after it and after every later operation
+//               (uncommitted_test.go); the block ids / transaction hashes of the uncommitted block are part of the sweep.
 // Oracle: model_test.go (dictionary chain) + direct equality of the three versions' answers after removing the
 // listed version-only fields.
 
@@ -77,8 +81,11 @@ func (t *tally) merge(m map[string]int64) {
 type nodeCase struct {
 	chain    []*chain.Entry
 	reverted []*chain.Entry
-	path     string
-	exotic   string
+	// uncommitted: blocks whose state transition the node computed without committing it (uncommitted_test.go): neither
+	// their hashes nor their transactions belong to the chain held
+	uncommitted []*chain.Entry
+	path        string
+	exotic      string
 }
 
 type blockID struct {
@@ -98,6 +105,16 @@ type check struct {
 	local   map[string]int64
 	reqs    int64
 	full    bool // issue the L1-independent requests too
+	// sink, if set, receives the violations instead of the run (uncommitted_test.go attributes them first)
+	sink func(key string, detail any)
+}
+
+func (c *check) violate(key string, detail any) {
+	if c.sink != nil {
+		c.sink(key, detail)
+		return
+	}
+	c.r.Violate(key, detail)
 }
 
 func (c *check) onL1(num uint64) bool { return c.l1 >= 0 && num <= uint64(c.l1) }
@@ -119,7 +136,7 @@ func (c *check) do(v int, method, params, idKind string) (*reply, bool) {
 	c.reqs++
 	rp, err := c.s.call(v, method, params)
 	if err != nil {
-		c.r.Violate(c.key("malformed-response", method, idKind, v), c.detail(v, method, params, obj{"err": err.Error()}))
+		c.violate(c.key("malformed-response", method, idKind, v), c.detail(v, method, params, obj{"err": err.Error()}))
 		return nil, false
 	}
 	if rp.Result != nil {
@@ -142,20 +159,20 @@ func (c *check) expect(v int, method, params, idKind string, rp *reply, wantCode
 	switch {
 	case wantCode != 0:
 		if !rp.isErr() {
-			c.r.Violate(c.key(fmt.Sprintf("answers-instead-of-error-%d", wantCode), method, idKind, v),
+			c.violate(c.key(fmt.Sprintf("answers-instead-of-error-%d", wantCode), method, idKind, v),
 				c.detail(v, method, params, obj{"got": brief(rp.Result)}))
 		} else if rp.Code != wantCode {
-			c.r.Violate(c.key(fmt.Sprintf("error-%d-instead-of-%d", rp.Code, wantCode), method, idKind, v),
+			c.violate(c.key(fmt.Sprintf("error-%d-instead-of-%d", rp.Code, wantCode), method, idKind, v),
 				c.detail(v, method, params, obj{"got": rp.ErrMsg}))
 		}
 	case rp.isErr():
-		c.r.Violate(c.key(fmt.Sprintf("error-%d-instead-of-answer", rp.Code), method, idKind, v),
+		c.violate(c.key(fmt.Sprintf("error-%d-instead-of-answer", rp.Code), method, idKind, v),
 			c.detail(v, method, params, obj{"got": rp.ErrMsg, "want": brief(want)}))
 	default:
 		var ds []string
 		diff("", want, rp.Result, &ds)
 		if len(ds) > 0 {
-			c.r.Violate(c.key("wrong-answer field="+leafField(ds[0]), method, idKind, v), c.detail(v, method, params, obj{"diffs": ds}))
+			c.violate(c.key("wrong-answer field="+leafField(ds[0]), method, idKind, v), c.detail(v, method, params, obj{"diffs": ds}))
 		}
 	}
 }
@@ -174,13 +191,13 @@ func (c *check) cross(method, params, idKind string, rps [nVersions]*reply) {
 		a, b := rps[base], rps[v]
 		switch {
 		case a.isErr() != b.isErr() || a.Code != b.Code:
-			c.r.Violate(fmt.Sprintf("versions-disagree outcome %s id=%s %s-vs-%s%s", method, idKind, versionName[base], versionName[v], c.backend),
+			c.violate(fmt.Sprintf("versions-disagree outcome %s id=%s %s-vs-%s%s", method, idKind, versionName[base], versionName[v], c.backend),
 				c.detail(v, method, params, obj{versionName[base]: outcomeOf(a), versionName[v]: outcomeOf(b)}))
 		case !a.isErr():
 			var ds []string
 			diff("", stripVersionOnly(a.Result, base), stripVersionOnly(b.Result, v), &ds)
 			if len(ds) > 0 {
-				c.r.Violate(fmt.Sprintf("versions-disagree field=%s %s id=%s %s-vs-%s%s", leafField(ds[0]), method, idKind, versionName[base], versionName[v], c.backend),
+				c.violate(fmt.Sprintf("versions-disagree field=%s %s id=%s %s-vs-%s%s", leafField(ds[0]), method, idKind, versionName[base], versionName[v], c.backend),
 					c.detail(v, method, params, obj{"diffs": ds}))
 			}
 		}
@@ -260,6 +277,13 @@ func (c *check) blockIDs() []blockID {
 		}
 		seen[*e.Block.Hash] = true
 		ids = append(ids, blockID{json: `{"block_hash":"` + e.Block.Hash.String() + `"}`, kind: "reverted-hash"})
+	}
+	for _, e := range c.nc.uncommitted {
+		if seen[*e.Block.Hash] {
+			continue // the same block is (or was) part of the chain: classified above
+		}
+		seen[*e.Block.Hash] = true
+		ids = append(ids, blockID{json: `{"block_hash":"` + e.Block.Hash.String() + `"}`, kind: "hash-of-uncommitted-block"})
 	}
 	ids = append(ids, blockID{json: `{"block_hash":"0xbadb10c"}`, kind: "unknown-hash"})
 	latest := blockID{json: `"latest"`, kind: "latest"}
@@ -480,6 +504,16 @@ func (c *check) txQueries() {
 			order = append(order, h)
 		}
 	}
+	for _, e := range c.nc.uncommitted {
+		for _, tx := range e.Block.Transactions {
+			h := *tx.Hash()
+			if _, ok := kind[h]; ok {
+				continue // also carried by a stored / reverted block: classified above
+			}
+			kind[h] = "in-uncommitted-block"
+			order = append(order, h)
+		}
+	}
 	unknown := chain.FV(0xBAD7)
 	order = append(order, unknown)
 	kind[unknown] = "unknown"
@@ -661,6 +695,16 @@ func TestCheck(t *testing.T) {
 			rule = append(rule, fmt.Sprintf("%s depth %d", label, ru.depth))
 		}
 	}
+	// uncommitted state transitions on the long-lived node (uncommitted_test.go). quick: the mixed-version configuration
+	// with 1 real operation; thorough: also the 0.13.2 configuration and the mixed configuration with 2 real operations.
+	// It runs after the main search so that a slow machine does not take budget away from that; the 1-operation
+	// enumerations are small and fixed (~1.3M requests each) and are NOT cut by the internal deadline, the 2-operation one is.
+	var ucRule []string
+	ucRule = append(ucRule, checkUncommitted(r, cfgMixed, 1, false))
+	if r.Thorough() {
+		ucRule = append(ucRule, checkUncommitted(r, cfgOld, 1, false))
+		ucRule = append(ucRule, checkUncommitted(r, cfgMixed, 2, true))
+	}
 	// outcome histogram (vacuity guard): one line per (method, id kind, outcome)
 	tal.mu.Lock()
 	keys := make([]string, 0, len(tal.outcomes))
@@ -677,6 +721,14 @@ func TestCheck(t *testing.T) {
 	}
 	tal.mu.Unlock()
 	r.Set("outcomes", hm)
+	ucOutcomes.mu.Lock()
+	uo := map[string]int64{}
+	for k, v := range ucOutcomes.outcomes {
+		uo[k] = v
+		r.Outcome("uncommitted " + k)
+	}
+	ucOutcomes.mu.Unlock()
+	r.Set("uncommitted_operation_outcomes", uo)
 	r.Set("requests_by_method", byMethod)
 	r.Set("distinct_images", states)
 	r.Set("transitions", transitions)
